@@ -7,6 +7,7 @@ C20  TZ value resolution follows tzset(3): file first, directory order, colon pr
 import TzVerif.Model.TzFile
 import TzVerif.Proofs.SrcEqTzString
 import TzVerif.Proofs.SrcEqSettings
+import TzVerif.Generated.StableC20   -- per run: the current translation (SrcNow) equals the baseline (Src) these theorems are about
 
 namespace TzVerif.C20
 open TzVerif.Model
